@@ -143,7 +143,20 @@ def _insert_site_ok(prog, ins: FuncInfo, n: ast.AST, kind: str, owner: ast.AST) 
             if d is not None and isinstance(d.value, ast.Call) and A.callee_name(d.value) == "all" and "isinstance" in T(d.value) and "Comment" in T(d.value):
                 sl = [x for x in ast.walk(d.value) if isinstance(x, ast.Subscript) and isinstance(x.slice, ast.Slice)]
                 if sl:
-                    okflags.append((sl[0].slice.lower is None, sl[0].slice.upper is None))
+                    # the slice bound is the marker's position as the list stands when the test runs: once the marker has
+                    # been deleted, what followed it starts at markerIndex; before that, at markerIndex + 1
+                    dels = [x for x in A.stmts_of(ins.node) if isinstance(x, ast.Delete) and isinstance(x.targets[0], ast.Subscript) and T(x.targets[0].value) == T(sl[0].value)]
+                    bound_ok = False
+                    if len(dels) == 1 and isinstance(dels[0].targets[0].slice, ast.Name):
+                        mi = dels[0].targets[0].slice.id
+                        after_del = dels[0].lineno < getattr(d.binder, "lineno", 0)
+                        lo, up = sl[0].slice.lower, sl[0].slice.upper
+                        if lo is None:
+                            bound_ok = up is not None and T(up) == mi
+                        elif up is None:
+                            bound_ok = T(lo) == mi or (not after_del and T(lo) == f"{mi} + 1")  # before the deletion the marker itself, a comment, may be included
+                    if bound_ok:
+                        okflags.append((sl[0].slice.lower is None, sl[0].slice.upper is None))
         ok = (True, False) in okflags and (False, True) in okflags and T(n.args[0]) == T(_block_name(prog, ins))
         return ok, "removes the marked block only when everything before and after the marker is a comment" if ok else "a block is removed without both only-comments tests"
     if kind == "assign":
@@ -702,6 +715,12 @@ def r1712(prog, chk):
 
 
 MUTANTS = [
+    M("marker deleted before the only-comments tests, the 'after' slice skips one statement (seeded C17o)", "ufo2ft/featureWriters/baseFeatureWriter.py", "BaseFeatureWriter._insert",
+      "onlyCommentsBefore = all((isinstance(s, ast.Comment) for s in block.statements[:markerIndex]))\nonlyCommentsAfter = all((isinstance(s, ast.Comment) for s in block.statements[markerIndex:]))\ndel block.statements[markerIndex]", "del block.statements[markerIndex]\nonlyCommentsBefore = all((isinstance(s, ast.Comment) for s in block.statements[:markerIndex]))\nonlyCommentsAfter = all((isinstance(s, ast.Comment) for s in block.statements[markerIndex + 1:]))", rule="R17.1"),
+    M("marker deleted before the only-comments tests, slices at the marker's old position", "ufo2ft/featureWriters/baseFeatureWriter.py", "BaseFeatureWriter._insert",
+      "onlyCommentsBefore = all((isinstance(s, ast.Comment) for s in block.statements[:markerIndex]))\nonlyCommentsAfter = all((isinstance(s, ast.Comment) for s in block.statements[markerIndex:]))\ndel block.statements[markerIndex]", "del block.statements[markerIndex]\nonlyCommentsBefore = all((isinstance(s, ast.Comment) for s in block.statements[:markerIndex]))\nonlyCommentsAfter = all((isinstance(s, ast.Comment) for s in block.statements[markerIndex:]))", kind="equiv"),
+    M("'after' test starts behind the marker, before it is deleted", "ufo2ft/featureWriters/baseFeatureWriter.py", "BaseFeatureWriter._insert",
+      "onlyCommentsAfter = all((isinstance(s, ast.Comment) for s in block.statements[markerIndex:]))", "onlyCommentsAfter = all((isinstance(s, ast.Comment) for s in block.statements[markerIndex + 1:]))", kind="equiv"),
     M("mark filtering set class defined without reserving the user's class names (seeded C17m)", "ufo2ft/featureWriters/markFeatureWriter.py", "MarkFeatureWriter._makeMarkFilteringSetClass",
       "return ast.makeGlyphClassDefinitions({className: members}, feaFile=self.context.feaFile)[className]", "return ast.makeGlyphClassDefinition(ast.makeFeaClassName(className), members)", rule="R17.8"),
     M("after a name clash later marks still go to the user's class (seeded C17l)", "ufo2ft/featureWriters/markFeatureWriter.py", "MarkFeatureWriter._makeMarkClassDefinitions",
